@@ -279,6 +279,31 @@ func genC15(t *rapid.T) c15Case {
 		lv.Items = append(lv.Items, m.YStr("vlong"))
 		used[fmt.Sprintf("long-list:%d", n)] = true
 	}
+	// a mapping that carries two expression keys (say propertyConstraints and not): the language reads one of them,
+	// whichever it is, and which one must not depend on the order they are written in
+	if vals := ya.Get("validations"); vals != nil && rapid.IntRange(0, 4).Draw(t, "twoExpressionKeys") == 0 {
+		for _, v := range vals.Vals {
+			if v.Kind != "map" || rapid.Bool().Draw(t, "secondKeyHere") {
+				continue
+			}
+			extraPC := m.YMap().Set("ex.p0", m.YMap().Set("minCount", m.YInt(int64(rapid.IntRange(0, 2).Draw(t, "extraMin")))))
+			switch k := pick(t, []string{"not", "or", "propertyConstraints", "and", "if"}, "secondKey"); {
+			case v.Get(k) != nil:
+			case k == "propertyConstraints":
+				v.Set(k, extraPC)
+			case k == "not":
+				v.Set(k, m.YMap().Set("propertyConstraints", extraPC))
+			case k == "if":
+				v.Set("if", m.YMap().Set("propertyConstraints", extraPC))
+				if v.Get("then") == nil {
+					v.Set("then", m.YMap().Set("propertyConstraints", m.YMap().Set("ex.p1", m.YMap().Set("minCount", m.YInt(1)))))
+				}
+			default:
+				v.Set(k, m.YSeq(m.YMap().Set("propertyConstraints", extraPC)))
+			}
+			used["two-expression-keys-in-one-mapping"] = true
+		}
+	}
 	yb := ya.Clone()
 	permuteTree(t, yb, true, used)
 	switch rapid.IntRange(0, 3).Draw(t, "prefixRewrite") {
